@@ -293,6 +293,37 @@ type vframe struct {
 	fn      *ssa.Function
 	verVals map[ssa.Value]bool
 	stVals  map[ssa.Value]bool
+	actual  map[ssa.Value]ssa.Value // parameter -> the caller's argument value (for message types)
+	parent  *vframe
+}
+
+// resolveArg follows parameters to the outermost caller's argument.
+func (fr *vframe) resolveArg(v ssa.Value) ssa.Value {
+	for f := fr; f != nil; f = f.parent {
+		a, ok := f.actual[v]
+		if !ok {
+			break
+		}
+		v = a
+	}
+	return v
+}
+
+// containsRead: f (transitively, within package trie) calls a stream read.
+func (e *versEngine) containsRead(f *ssa.Function, seen map[*ssa.Function]bool) bool {
+	if seen[f] {
+		return false
+	}
+	seen[f] = true
+	for _, c := range callsIn(f) {
+		if calleeIs(c, idReadHeader, idPbUnmarsh) {
+			return true
+		}
+		if g := calleeOf(c); g != nil && trieScope(g) && len(g.Blocks) > 0 && e.containsRead(g, seen) {
+			return true
+		}
+	}
+	return false
 }
 
 // fold evaluates a bool value under the version binding.
@@ -383,6 +414,45 @@ func isVersionPredicate(v ssa.Value) bool {
 	return ok && calleeIs(c, idVersCheck, idVersCompat)
 }
 
+// leaveClass: v is the error result of a callee that was expanded on this path:
+// return the class recorded when it was left ("" if v is not such a value).
+func leaveClass(v ssa.Value, ev []vevent) string {
+	var call ssa.Value = v
+	if ex, ok := v.(*ssa.Extract); ok {
+		call = ex.Tuple
+	}
+	c, ok := call.(*ssa.Call)
+	if !ok {
+		return ""
+	}
+	for i := len(ev) - 1; i >= 0; i-- {
+		if ev[i].kind == "leave" && ev[i].instr == ssa.Instruction(c) {
+			if j := strings.Index(ev[i].detail, "="); j >= 0 {
+				return ev[i].detail[j+1:]
+			}
+		}
+	}
+	return ""
+}
+
+// errClassIn: like errClass, but a value returned by an expanded callee takes
+// the class recorded for this path.
+func (e *versEngine) errClassIn(v ssa.Value, depth int, ev []vevent) string {
+	if cls := leaveClass(v, ev); cls != "" {
+		return cls
+	}
+	if c, ok := v.(*ssa.Call); ok {
+		for _, a := range c.Call.Args {
+			if isErrorType(a.Type()) {
+				if cls := leaveClass(a, ev); cls != "" && cls != "nil" {
+					return cls
+				}
+			}
+		}
+	}
+	return e.errClass(v, depth)
+}
+
 // errClass classifies a returned error value.
 func (e *versEngine) errClass(v ssa.Value, depth int) string {
 	if isNilConst(v) {
@@ -445,10 +515,17 @@ func readCallOfErr(v ssa.Value) *ssa.Call {
 }
 
 func msgTypeOfParse(c *ssa.Call) (string, ssa.Value) {
+	return msgTypeOfParseIn(c, nil)
+}
+
+func msgTypeOfParseIn(c *ssa.Call, fr *vframe) (string, ssa.Value) {
 	if len(c.Call.Args) < 2 {
 		return "?", nil
 	}
 	a := c.Call.Args[1]
+	if fr != nil {
+		a = fr.resolveArg(a)
+	}
 	if mi, ok := a.(*ssa.MakeInterface); ok {
 		a = mi.X
 	}
@@ -522,7 +599,7 @@ func (e *versEngine) explore(ver string) ([]vpath, bool) {
 				case calleeIs(in, idReadHeader):
 					ev = append(ev, vevent{kind: "header", pos: in.Pos(), instr: in})
 				case calleeIs(in, idPbUnmarsh):
-					t, _ := msgTypeOfParse(in)
+					t, _ := msgTypeOfParseIn(in, fr)
 					ev = append(ev, vevent{kind: "parse", detail: t, pos: in.Pos(), instr: in})
 				default:
 					g := calleeOf(in)
@@ -538,10 +615,11 @@ func (e *versEngine) explore(ver string) ([]vpath, bool) {
 							passesSt = true
 						}
 					}
-					if passesVer && e.hasVersionPredicate(g, map[*ssa.Function]bool{}) && depth < 5 {
-						nf := &vframe{fn: g, verVals: map[ssa.Value]bool{}, stVals: map[ssa.Value]bool{}}
+					if ((passesVer && e.hasVersionPredicate(g, map[*ssa.Function]bool{})) || e.containsRead(g, map[*ssa.Function]bool{})) && depth < 5 {
+						nf := &vframe{fn: g, verVals: map[ssa.Value]bool{}, stVals: map[ssa.Value]bool{}, actual: map[ssa.Value]ssa.Value{}, parent: fr}
 						for pi, prm := range g.Params {
 							if pi < len(in.Call.Args) {
+								nf.actual[prm] = in.Call.Args[pi]
 								if fr.verVals[in.Call.Args[pi]] {
 									nf.verVals[prm] = true
 								}
@@ -552,8 +630,15 @@ func (e *versEngine) explore(ver string) ([]vpath, bool) {
 						}
 						rest := i + 1
 						ev2 := append(append([]vevent{}, ev...), vevent{kind: "enter", detail: g.Name(), pos: in.Pos()})
-						run(nf, g.Blocks[0], 0, ev2, map[*ssa.BasicBlock]int{}, depth+1, func(evs []vevent, _ *ssa.Return) {
-							evs = append(append([]vevent{}, evs...), vevent{kind: "leave", detail: g.Name(), pos: in.Pos()})
+						run(nf, g.Blocks[0], 0, ev2, map[*ssa.BasicBlock]int{}, depth+1, func(evs []vevent, cret *ssa.Return) {
+							cls := ""
+							if cret != nil && len(cret.Results) > 0 {
+								last := cret.Results[len(cret.Results)-1]
+								if isErrorType(last.Type()) {
+									cls = e.errClassIn(last, 0, evs)
+								}
+							}
+							evs = append(append([]vevent{}, evs...), vevent{kind: "leave", detail: g.Name() + "=" + cls, pos: in.Pos(), instr: in})
 							run(fr, b, rest, evs, seen, depth, k)
 						})
 						return
@@ -598,6 +683,17 @@ func (e *versEngine) explore(ver string) ([]vpath, bool) {
 					}
 					return
 				}
+				// error returned by an expanded callee: its class on this path is known
+				if x, nilSucc, ok := nilTest(in.Cond); ok {
+					if cls := leaveClass(x, ev); cls != "" {
+						if cls == "nil" {
+							run(fr, b.Succs[nilSucc], 0, ev, seen, depth, k)
+						} else {
+							run(fr, b.Succs[1-nilSucc], 0, ev, seen, depth, k)
+						}
+						return
+					}
+				}
 				// error test of a stream read: record outcome
 				if x, nilSucc, ok := nilTest(in.Cond); ok {
 					if rc := readCallOfErr(x); rc != nil {
@@ -624,7 +720,7 @@ func (e *versEngine) explore(ver string) ([]vpath, bool) {
 	run(root, un.Blocks[0], 0, nil, map[*ssa.BasicBlock]int{}, 0, func(ev []vevent, ret *ssa.Return) {
 		cls := "noreturn"
 		if ret != nil && len(ret.Results) == 1 {
-			cls = e.errClass(ret.Results[0], 0)
+			cls = e.errClassIn(ret.Results[0], 0, ev)
 		}
 		p := vpath{events: append([]vevent{}, ev...), ret: cls}
 		if ret != nil {
